@@ -310,6 +310,158 @@ fn oneshot(ctx: &mut Ctx, data: &[u8], level: i32) {
     }
 }
 
+// exported C symbols that the crate does not re-export to Rust users
+extern "C" {
+    fn tinfl_decompressor_alloc() -> *mut tinfl_decompressor;
+    fn tinfl_decompressor_free(c: *mut tinfl_decompressor);
+    fn tinfl_init(c: *mut tinfl_decompressor);
+    fn tinfl_get_adler32(c: *mut tinfl_decompressor) -> libc::c_int;
+}
+
+/// The low-level exports (`tinfl_*`, `tdefl_*`) against the Rust calls they wrap: an allocated
+/// decompressor / compressor object driven under a schedule, sizes passed by pointer, the callback
+/// sink, the accessors; buffers against guard pages.
+fn lowlevel(ctx: &mut Ctx, data: &[u8], level: i32, seed: u64) {
+    use miniz_oxide::deflate::core::{compress, compress_to_output, CompressorOxide, TDEFLFlush, TDEFLStatus};
+    use miniz_oxide::inflate::core::{decompress, DecompressorOxide};
+    let id = ctx.id();
+    let replay = format!("CLOW level={} seed={} in={}", level, seed, hex(data));
+    announce(&replay[..replay.len().min(200)]);
+    ctx.eval(fnv(data) ^ seed ^ 0x10e);
+    ctx.count("lowlevel_cases");
+    let mut rng = crate::rng::Rng::new(seed);
+    let flags = tdefl_create_comp_flags_from_zip_params(level, 15, 0);
+    unsafe {
+        // ---- tdefl object: tdefl_compress into caller buffers under a schedule
+        let d = tdefl_allocate();
+        if d.is_null() { ctx.violation(id, "tdefl", "tdefl_allocate returned NULL".into(), replay); return; }
+        if tdefl_get_prev_return_status(d.as_mut()) as i32 != -2 { ctx.violation(id, "tdefl", "prev_return_status of an uninitialised compressor is not BAD_PARAM".into(), replay.clone()); }
+        let rc = tdefl_init(d.as_mut(), None, std::ptr::null_mut(), flags as i32) as i32;
+        if rc != 0 { ctx.violation(id, "tdefl", format!("tdefl_init returned {}", rc), replay.clone()); }
+        let mut rust = CompressorOxide::new(flags);
+        let mut inb = Guarded::new(data.len(), rng.chance(1, 2), 0x33);
+        inb.write(data);
+        let mut ipos = 0usize; let mut cz: Vec<u8> = vec![];
+        let mut done = false;
+        for call in 0..200000 {
+            let left = data.len() - ipos;
+            let ain = match rng.below(3) { 0 => rng.range(0, 40).min(left), 1 => rng.range(0, 5000).min(left), _ => left };
+            let aout = *rng.pick(&[1usize, 5, 100, 4000, 70000]);
+            let fl = if ain == left && rng.chance(1, 2) { 4 } else { *rng.pick(&[0, 0, 2, 3]) };
+            let cfl = match fl { 0 => tdefl_flush::TDEFL_NO_FLUSH, 2 => tdefl_flush::TDEFL_SYNC_FLUSH, 3 => tdefl_flush::TDEFL_FULL_FLUSH, _ => tdefl_flush::TDEFL_FINISH };
+            let rfl = match fl { 0 => TDEFLFlush::None, 2 => TDEFLFlush::Sync, 3 => TDEFLFlush::Full, _ => TDEFLFlush::Finish };
+            let outb = Guarded::new(aout, rng.chance(1, 2), 0xEE);
+            let (mut isz, mut osz) = (ain, aout);
+            let rc = tdefl_compress(d.as_mut(), inb.ptr.add(ipos) as *const libc::c_void, Some(&mut isz), outb.ptr as *mut libc::c_void, Some(&mut osz), cfl) as i32;
+            ctx.count("tdefl_compress_calls");
+            let mut ro = vec![0u8; aout];
+            let (rs, ri, rw) = compress(&mut rust, &data[ipos..ipos + ain], &mut ro, rfl);
+            if rc != rs as i32 || isz != ri || osz != rw || (osz <= aout && ro[..rw.min(aout)] != outb.slice()[..osz.min(aout)]) {
+                ctx.violation(id, "same", format!("tdefl_compress call #{} (in {} out {} flush {}): C ({}, {}, {}) vs Rust ({}, {}, {})", call, ain, aout, fl, rc, isz, osz, rs as i32, ri, rw), replay.clone()); break;
+            }
+            if tdefl_get_prev_return_status(d.as_mut()) as i32 != rust.prev_return_status() as i32 { ctx.violation(id, "same", format!("call #{}: tdefl_get_prev_return_status differs", call), replay.clone()); break; }
+            if tdefl_get_adler32(d.as_mut()) != rust.adler32() { ctx.violation(id, "same", format!("call #{}: tdefl_get_adler32 {} vs {}", call, tdefl_get_adler32(d.as_mut()), rust.adler32()), replay.clone()); break; }
+            cz.extend_from_slice(&outb.slice()[..osz]); ipos += isz;
+            if rs == TDEFLStatus::Done { done = true; break; }
+            if rs != TDEFLStatus::Okay { break; }
+        }
+        tdefl_deallocate(d);
+        if done { ctx.line(&format!("ENC id={} rp=CLOW;level={};seed={};inkey=in checks=rt modes=- level={} strategy=0 fmt=1 wb=15 in={} comp={}", id, level, seed, level.clamp(0, 10), hex(data), hex(&cz))); }
+
+        // ---- tdefl object with a callback sink: tdefl_compress_buffer / tdefl_compress_mem_to_output
+        struct Sink { out: Vec<u8>, calls: usize, fail_at: usize }
+        unsafe extern "C" fn put(buf: *const libc::c_void, len: libc::c_int, user: *mut libc::c_void) -> i32 {
+            let s = &mut *(user as *mut Sink);
+            s.calls += 1;
+            if s.calls == s.fail_at { return 0; }
+            s.out.extend_from_slice(std::slice::from_raw_parts(buf as *const u8, len as usize)); 1
+        }
+        let mut want: Vec<u8> = vec![];
+        let mut rust2 = CompressorOxide::new(flags);
+        let (rs2, _) = compress_to_output(&mut rust2, data, TDEFLFlush::Finish, |b| { want.extend_from_slice(b); true });
+        let mut sink = Sink { out: vec![], calls: 0, fail_at: 0 };
+        let ok = tdefl_compress_mem_to_output(inb.ptr as *const libc::c_void, data.len(), Some(put), &mut sink as *mut Sink as *mut libc::c_void, flags as i32);
+        ctx.count("tdefl_mem_to_output");
+        if (ok != 0) != (rs2 == TDEFLStatus::Done) || sink.out != want { ctx.violation(id, "same", format!("tdefl_compress_mem_to_output: returned {}, {} bytes; Rust compress_to_output {:?}, {} bytes", ok, sink.out.len(), rs2, want.len()), replay.clone()); }
+        // a sink that refuses the k-th buffer: failure reported, nothing after the refusal
+        if sink.calls > 0 {
+            let k = 1 + rng.below(sink.calls);
+            let mut s2 = Sink { out: vec![], calls: 0, fail_at: k };
+            let ok2 = tdefl_compress_mem_to_output(inb.ptr as *const libc::c_void, data.len(), Some(put), &mut s2 as *mut Sink as *mut libc::c_void, flags as i32);
+            if ok2 != 0 || s2.calls != k || s2.out[..] != want[..s2.out.len()] { ctx.violation(id, "callback", format!("sink refusing buffer {}: returned {}, {} calls, prefix ok = {}", k, ok2, s2.calls, s2.out[..] == want[..s2.out.len().min(want.len())]), replay.clone()); }
+        }
+        if tdefl_compress_mem_to_output(inb.ptr as *const libc::c_void, data.len(), None, std::ptr::null_mut(), flags as i32) != 0 { ctx.violation(id, "misuse", "tdefl_compress_mem_to_output without a callback reported success".into(), replay.clone()); }
+        // object + callback + tdefl_compress_buffer in pieces
+        let d2 = tdefl_allocate();
+        let mut s3 = Sink { out: vec![], calls: 0, fail_at: 0 };
+        tdefl_init(d2.as_mut(), Some(put), &mut s3 as *mut Sink as *mut libc::c_void, flags as i32);
+        let cut = rng.range(0, data.len());
+        let r1 = tdefl_compress_buffer(d2.as_mut(), inb.ptr as *const libc::c_void, cut, tdefl_flush::TDEFL_NO_FLUSH) as i32;
+        let r2 = tdefl_compress_buffer(d2.as_mut(), inb.ptr.add(cut) as *const libc::c_void, data.len() - cut, tdefl_flush::TDEFL_FINISH) as i32;
+        tdefl_deallocate(d2);
+        ctx.count("tdefl_compress_buffer");
+        if r1 != 0 || r2 != 1 { ctx.violation(id, "tdefl", format!("tdefl_compress_buffer returned {} then {}", r1, r2), replay.clone()); }
+        else { ctx.line(&format!("ENC id={} rp=CLOW;level={};seed={};inkey=in checks=rt modes=- level={} strategy=0 fmt=1 wb=15 in={} comp={}", id, level, seed, level.clamp(0, 10), hex(data), hex(&s3.out))); }
+
+        // ---- tinfl object: tinfl_decompress under a schedule, flat buffer, sizes by pointer
+        let z = miniz_oxide::deflate::compress_to_vec_zlib(data, 6);
+        let mut zin = Guarded::new(z.len(), rng.chance(1, 2), 0x44);
+        zin.write(&z);
+        let r = tinfl_decompressor_alloc();
+        tinfl_init(r);
+        let mut rr = DecompressorOxide::new();
+        let cap = data.len() + rng.range(0, 300);
+        let outb = Guarded::new(cap, rng.chance(1, 2), 0xEE);
+        let mut ro = vec![0xEEu8; cap];
+        let (mut ip, mut op) = (0usize, 0usize);
+        for call in 0..400000 {
+            let left = z.len() - ip;
+            let ain = match rng.below(3) { 0 => rng.range(0, 3).min(left), 1 => rng.range(0, 300).min(left), _ => left };
+            let fl: u32 = 1 | 4 | if ip + ain < z.len() { 2 } else { 0 } | if rng.chance(1, 3) { 8 } else { 0 };
+            let (mut isz, mut osz) = (ain, cap - op);
+            let rc = tinfl_decompress(r, zin.ptr.add(ip), &mut isz, outb.ptr, outb.ptr.add(op), &mut osz, fl);
+            ctx.count("tinfl_decompress_calls");
+            let (rs, ri, rw) = decompress(&mut rr, &z[ip..ip + ain], &mut ro, op, fl);
+            if rc != rs as i32 || isz != ri || osz != rw || ro[..] != outb.slice()[..] {
+                ctx.violation(id, "same", format!("tinfl_decompress call #{} (in {} at out {}): C ({}, {}, {}) vs Rust ({}, {}, {})", call, ain, op, rc, isz, osz, rs as i32, ri, rw), replay.clone()); break;
+            }
+            let ca = tinfl_get_adler32(r) as u32; let ra = rr.adler32().unwrap_or(0);
+            if ca != ra { ctx.violation(id, "same", format!("call #{}: tinfl_get_adler32 {} vs {}", call, ca, ra), replay.clone()); break; }
+            ip += isz; op += osz;
+            if rc != 1 && rc != 2 { break; }
+            if rc == 2 && op == cap { break; }
+            if rc == 1 && ip == z.len() && ain == left { break; }
+        }
+        // tinfl_init on a used object: as good as new
+        tinfl_init(r);
+        let (mut isz, mut osz) = (z.len(), cap);
+        let rc = tinfl_decompress(r, zin.ptr, &mut isz, outb.ptr, outb.ptr, &mut osz, 1 | 4);
+        if rc != 0 || osz != data.len() || outb.slice()[..osz] != data[..] { ctx.violation(id, "tinfl", format!("after tinfl_init: one call returned {} with {} bytes", rc, osz), replay.clone()); }
+        tinfl_decompressor_free(r);
+        tinfl_decompressor_free(std::ptr::null_mut());
+        tdefl_deallocate(std::ptr::null_mut());
+        // too small a destination for the one-call helper: the failure value, nothing outside the buffer
+        if data.len() > 1 {
+            let small = Guarded::new(data.len() - 1, rng.chance(1, 2), 0xEE);
+            let n = tinfl_decompress_mem_to_mem(small.ptr as *mut libc::c_void, data.len() - 1, zin.ptr as *const libc::c_void, z.len(), 1);
+            if n != usize::MAX { ctx.violation(id, "tinfl", format!("tinfl_decompress_mem_to_mem into a short buffer returned {}", n), replay.clone()); }
+        }
+        // heap helper on a corrupt stream: NULL and length 0
+        let (m, _) = crate::sgen::mutate(&mut rng, &z);
+        let want_ok = miniz_oxide::inflate::decompress_to_vec_zlib(&m);
+        let mut mg = Guarded::new(m.len(), rng.chance(1, 2), 0x55); mg.write(&m);
+        let mut hl = 77usize;
+        let hp = tinfl_decompress_mem_to_heap(mg.ptr as *const libc::c_void, m.len(), &mut hl, 1);
+        match (&want_ok, hp.is_null()) {
+            (Ok(v), false) => { if hl != v.len() || std::slice::from_raw_parts(hp as *const u8, hl) != &v[..] { ctx.violation(id, "same", "tinfl_decompress_mem_to_heap differs from decompress_to_vec_zlib".into(), replay.clone()); } }
+            (Err(_), true) => { if hl != 0 { ctx.violation(id, "tinfl", format!("tinfl_decompress_mem_to_heap failed but left length {}", hl), replay.clone()); } }
+            (Ok(_), true) => ctx.violation(id, "same", "tinfl_decompress_mem_to_heap failed where decompress_to_vec_zlib succeeds".into(), replay.clone()),
+            (Err(_), false) => ctx.violation(id, "same", "tinfl_decompress_mem_to_heap succeeded where decompress_to_vec_zlib fails".into(), replay.clone()),
+        }
+        if !hp.is_null() { miniz_def_free_func(std::ptr::null_mut(), hp); }
+    }
+}
+
 pub fn run(ctx: &mut Ctx) {
     if let Some(lines) = ctx.replay_lines.clone() {
         for l in lines {
@@ -320,6 +472,7 @@ pub fn run(ctx: &mut Ctx) {
                 "CINFL" => inflate_schedule(ctx, &crate::tx::unhex(&kv["data"]), kv["wb"].parse().unwrap(), kv["seed"].parse().unwrap(), "replay"),
                 "CONE" => oneshot(ctx, &crate::tx::unhex(&kv["in"]), kv["level"].parse().unwrap()),
                 "MISUSE" => misuse(ctx),
+                "CLOW" => lowlevel(ctx, &crate::tx::unhex(&kv["in"]), kv["level"].parse().unwrap(), kv["seed"].parse().unwrap()),
                 _ => {}
             }
         }
@@ -350,6 +503,14 @@ pub fn run(ctx: &mut Ctx) {
         let data = plain::gen(&mut ctx.rng, kind, n);
         let level = ctx.rng.range(0, 11) as i32 - 1;
         oneshot(ctx, &data, level);
+    }
+    for _ in 0..(30 * ctx.scale) {
+        let kind = *ctx.rng.pick(plain::KINDS);
+        let n = match ctx.rng.below(3) { 0 => ctx.rng.range(0, 40), 1 => ctx.rng.range(40, 5000), _ => ctx.rng.range(5000, 150000) };
+        let data = plain::gen(&mut ctx.rng, kind, n);
+        let level = ctx.rng.range(0, 10) as i32;
+        let seed = ctx.rng.next();
+        lowlevel(ctx, &data, level, seed);
     }
     ctx.sample("mz_deflate/mz_inflate under random (avail_in, avail_out, flush) schedules with input and output placed against PROT_NONE pages, compared call by call with deflate()/inflate() of the Rust API".into());
 }
